@@ -36,6 +36,9 @@ Clause -> case family
         heartbeat: enum/hb, history: payload after nmt.state=, send_command, NMT frames from the master
                    API / raw frames (addressed, broadcast, foreign node), period = 0x1017 / 1000
         guarding:  enum/guard, history: remote frame 0x700+id, period
+                   enum/pdo-rx, history: frames with the map's own COB-ID on the bus while the map is
+                   transmitting (echo, duplicate, second producer) change neither the task nor the period that
+                   start() without argument re-uses
   "after stop, or after the heartbeat time is set to 0, none is running"
         stop ops of every producer (PdoMap.stop, node.pdo.stop, tpdo/rpdo.stop, sync.stop, stop_heartbeat,
         stop_node_guarding), 0x1017 := 0 locally and over SDO, start_heartbeat(0), boot with 0x1017 == 0
@@ -68,7 +71,8 @@ from hypothesis import strategies as st
 from harness import refcodec as rc
 from harness.core import Discrepancy, Outcome
 from harness.odutil import build_od
-from harness.ref_c17 import F1, Model, field_range, type_width, valid_period
+from harness.ref_c17 import F1, UNKNOWN, field_range, type_width, valid_period
+from harness.ref_c17 import Model as _RefModel
 from harness.simbus import Frame, Hub, Port
 
 PROPERTY = "C17"
@@ -87,8 +91,13 @@ RULE = ("case = configuration (bus with/without modify_data, 1-2 nodes each as L
         "remote, period) with the recording bus after every call, plus a no-overlap probe at registration "
         "time. sync.cob_id may be changed between calls (the next start() must use it; a task already running "
         "may carry either id until then); PDO COB-IDs include 0x7FF/0x800 (frame format is compared). "
+        "Frames with a subscribed map's own COB-ID are put on the bus between the calls, while the map is "
+        "stopped (reception: data and period are learnt) and while it is transmitting (echo / duplicate / second "
+        "producer: task, payload and period stay, start() without argument still re-uses the period of the start "
+        "call); enum/pdo-rx has every short sequence with such a frame on two subscribed maps. "
         "Non-trivial = history containing a restart without stop, a data/state update while running, a "
-        "set-to-zero while running or a disconnect with live PDO tasks; distinct = canonical JSON of the case.")
+        "set-to-zero while running, a disconnect with live PDO tasks or a frame with the map's own COB-ID "
+        "heard while transmitting; distinct = canonical JSON of the case.")
 ASSUMPTIONS = [
     "a cyclic task transmits the frame contents handed to send_periodic()/modify_data() at that time (adapter "
     "copies the frame, e.g. python-can's IXXAT task); tasks without modify_data cannot be changed afterwards",
@@ -102,6 +111,10 @@ ASSUMPTIONS = [
     "period comparison uses rel. tolerance 1e-9 (ms -> s conversion may round differently)",
     "leaving a `with network:` block (normally or by an exception) and Network.__exit__ are disconnects of that "
     "network; whether the exception of the block propagates is not judged",
+    "a frame with the COB-ID of a transmitting map is not a call on that producer: the map keeps data, task and "
+    "the period start() re-uses; whether it remembers the time of that frame is not stated, so the period learnt "
+    "from the first reception after the following stop is undetermined (start() without argument excluded "
+    "until the period is given again)",
     "reception (period learnt from received frames) is only generated for maps marked enabled whose mark never "
     "changed; PdoMap.enabled is only assigned while the map is stopped; a map that is not marked enabled can be "
     "started, updated and stopped like any other (start() is documented without such a condition)",
@@ -111,6 +124,56 @@ BUDGET = {"quick": 150, "thorough": 330}
 HB_INDEX = 0x1017
 OTHER_INDEX = 0x2100
 VAR_BASE = 0x2000
+
+X_HEARD = ("start() without period after a reception that followed a frame heard while transmitting: whether the "
+           "frame heard while transmitting counts as the previous reception is not stated")
+
+
+class Model(_RefModel):
+    """The reference model plus frames with a map's own COB-ID that arrive while the map is transmitting
+    (an echo of its own frames, a duplicated frame, a second producer on that COB-ID).
+
+    Such a frame is none of the calls the property lets change a producer: the running task keeps CAN id,
+    payload and period, the map keeps its data, and the period a later start() without argument re-uses is
+    still the one the map was started with (flag "F").  What the property does not say is whether the map
+    remembers the time of that frame; the period learnt from the first reception after the map was stopped
+    again is therefore undetermined (start() without argument is kept out of the domain until the period is
+    given again by start(p), an assignment or a further reception)."""
+
+    def _pdo_rx(self, op, v):
+        m = self._map(op)
+        m.clock = op["ts"]                       # generator only: frame times on the bus are increasing
+        if not self.connected[m.net] or not m.subscribed:
+            return
+        if m.running is not None:
+            v.flags.add("F")
+            m.heard_running = True
+            return
+        if getattr(m, "heard_running", False):
+            m.heard_running = False
+            assert len(op["data"]) == len(m.data)
+            m.data = bytes(op["data"])
+            m.period = UNKNOWN
+            m.period_why = X_HEARD
+            m.last_ts = op["ts"]
+            return
+        m.period_why = None
+        super()._pdo_rx(op, v)
+
+    def _pdo_start(self, op, v):
+        m = self._map(op)
+        if (op.get("p") is None and m.period is UNKNOWN and getattr(m, "period_why", None)
+                and self.connected[m.net]):
+            v.excluded = m.period_why
+            return
+        super()._pdo_start(op, v)
+        if not v.excluded and v.raises is None:
+            m.period_why = None
+
+    def _pdo_period(self, op, v):
+        super()._pdo_period(op, v)
+        if not v.excluded:
+            self._map(op).period_why = None
 
 
 # ---- recording bus with by-value tasks ---------------------------------------------
@@ -478,7 +541,7 @@ def run_case(case) -> Outcome:
                 D.append(Discrepancy(f"C17/{kind}/raises", f"{tag}: {type(e).__name__}: {e} out of "
                                                            f"Network.notify for {fr}"))
                 break
-    nontrivial = bool(flags & {"R", "U", "Z", "D"})
+    nontrivial = bool(flags & {"R", "U", "Z", "D", "F"})
     fam = case.get("family", "history")
     klass = f"{fam}/{'mod' if case['mod'] else 'nomod'}/{''.join(sorted(flags)) or '-'}"
     return Outcome(nontrivial, klass, D)
@@ -611,6 +674,50 @@ def enum_pdo(max_len, not_enabled=False, deal=2):
                 if len(seq) == max_len and max_len > 2 and (j + variant) % deal:
                     continue   # the longest sequences are dealt alternately to the two variants
                 yield {"family": family, "mod": mod, "nodes": [node], "ops": seq}
+
+
+RX_GAPS = (0.008, 0.25, 0.05, 1.0, 0.002, 3.5)
+RX_DATA = (bytes([0xEE, 0xEE, 0xEE]), bytes([0x01, 0x00, 0x80]), bytes(3))
+
+
+def enum_pdo_rx(max_len, deal=2):
+    """Frames with the map's own COB-ID on the bus between the calls - while the map is stopped (reception:
+    the map learns data and period) and while it is transmitting (echo of its own frames, a duplicated
+    frame, a second producer: nothing about the transmission may change, and start() without argument
+    still re-uses the period of the start call).  All sequences up to max_len over start(p) / start() /
+    stop / frame on the bus / variable write / update() on two subscribed maps (TPDO of a LocalNode read
+    from the OD, RPDO of a RemoteNode set up by hand and subscribed); the k-th frame of a sequence comes
+    RX_GAPS[k] after the one before."""
+    for mod in (True, False):
+        for variant in (0, 1):
+            if variant == 0:
+                node = {"id": 5, "hb": 0, "tpdo": [{"no": 1, "cob": 0x185, "setup": "from_od",
+                                                    "entries": [E(U8), E(U16)]}]}
+                a = {"side": "L", "node": 5, "map": 1}
+                w = {"op": "pdo_write", "var": 1, "v": 0x1234, **a}
+            else:
+                node = {"id": 0x7F, "hb": 0, "rpdo": [{"no": 2, "cob": 0x1ABCDE01 if mod else 0x27F,
+                                                       "setup": "direct", "sub": True,
+                                                       "entries": [E(U8, 3), E(I16), E(I8, 5)]}]}
+                a = {"side": "R", "node": 0x7F, "map": 2}
+                w = {"op": "pdo_write", "var": 1, "v": -2, **a}
+            rx = {"op": "pdo_rx", **a}
+            alpha = [{"op": "pdo_start", "p": 0.1, **a}, {"op": "pdo_start", "p": 0.5, **a},
+                     {"op": "pdo_start", "p": None, **a}, {"op": "pdo_stop", **a}, rx, w,
+                     {"op": "pdo_update", **a}]
+            for j, seq in enumerate(_sequences(alpha, max_len)):
+                if rx not in seq:
+                    continue       # without a frame on the bus: enum/pdo
+                if len(seq) == max_len and max_len > 3 and (j + variant) % deal:
+                    continue
+                ops, ts, k = [], 100.0, 0
+                for op in seq:
+                    if op is rx:
+                        ts = round(ts + RX_GAPS[k % len(RX_GAPS)], 6)
+                        op = dict(rx, data=RX_DATA[k % len(RX_DATA)], ts=ts)
+                        k += 1
+                    ops.append(op)
+                yield {"family": "enum/pdo-rx", "mod": mod, "nodes": [node], "ops": ops}
 
 
 def enum_hb(max_len):
@@ -868,6 +975,10 @@ def _pdo_op(draw, model, key):
                 kinds += ["start_noarg"]
             if m.subscribed:
                 kinds += ["rx"]
+        elif m.subscribed:
+            # a frame with the map's own COB-ID on the bus while the map is transmitting (echo, duplicate,
+            # second producer): no call on the producer, nothing about its transmission may change
+            kinds += ["rx"] * 3
     kind = pick(draw, kinds)
     if kind == "start":
         return {"op": "pdo_start", "p": draw(period_st), **a}
@@ -907,7 +1018,8 @@ def _pdo_op(draw, model, key):
         return {"op": "pdo_poke", "data": draw(_bin(len(m.data))), **a}
     if kind == "rx":
         n = len(m.data)
-        ts = round((m.last_ts or 100.0) + pick(draw, ([0.001, 0.01, 0.25, 1.0, 3.5])), 6)
+        ts = round((getattr(m, "clock", None) or m.last_ts or 100.0)
+                   + pick(draw, ([0.001, 0.01, 0.25, 1.0, 3.5])), 6)
         return {"op": "pdo_rx", "data": draw(_bin(n)), "ts": ts, **a}
     raise KeyError(kind)
 
@@ -995,6 +1107,11 @@ def search(ctx):
     ctx.enumerate(enum_pdo(n, not_enabled=True, deal=4),
                   f"pdo, maps not marked enabled: all op sequences up to length {n - 1} on two map variants, "
                   f"every 4th of length {n}")
+    n = 5 if thorough else 4
+    ctx.enumerate(enum_pdo_rx(n, deal=3 if thorough else 2),
+                  f"pdo, frames with the map's own COB-ID on the bus while stopped and while transmitting: all "
+                  f"sequences with such a frame up to length {n - 1} over start(p)/start()/stop/frame/write/"
+                  f"update on two subscribed maps, every {'3rd' if thorough else '2nd'} of length {n}")
     ctx.enumerate(enum_guard(6 if thorough else 4), f"guarding: all op sequences up to length {6 if thorough else 4}")
     rounds, per_round = (12, 1000) if thorough else (4, 400)
     # thorough: one round of random histories before the three big enumerations, so that a loaded machine
